@@ -656,7 +656,13 @@ impl<T: AsRef<[u8]>> Frame<T> {
         } else {
             0
         };
-        &b[5..][..length]
+        // The key identifier follows the security control byte and the frame counter, if present.
+        let start = if self.frame_counter_suppressed() {
+            1
+        } else {
+            5
+        };
+        &b[start..][..length]
     }
 
     /// Return the Key Source field.
